@@ -928,7 +928,7 @@ class Message(ABC):
             value = self.__raw_get(name)
             if value is not PLACEHOLDER:
                 kwargs[name] = deepcopy(value)
-        return self.__class__(**kwargs)  # type: ignore
+        return self.__copy_state_to(self.__class__(**kwargs))  # type: ignore
 
     def __copy__(self: T, _: Any = {}) -> T:
         kwargs = {}
@@ -936,7 +936,14 @@ class Message(ABC):
             value = self.__raw_get(name)
             if value is not PLACEHOLDER:
                 kwargs[name] = value
-        return self.__class__(**kwargs)  # type: ignore
+        return self.__copy_state_to(self.__class__(**kwargs))  # type: ignore
+
+    def __copy_state_to(self: T, clone: T) -> T:
+        # __post_init__ guessed these from the constructor arguments; a copy
+        # has the presence and the unknown fields of its original.
+        clone.__dict__["_serialized_on_wire"] = self._serialized_on_wire
+        clone.__dict__["_unknown_fields"] = self._unknown_fields
+        return clone
 
     @classproperty
     def _betterproto(cls: type[Self]) -> ProtoClassMetadata:  # type: ignore
